@@ -223,18 +223,62 @@ func globalsDigest() string {
 // retained results: in -purity mode the objects returned by a call are kept and
 // re-serialised after the whole history (a later call must not change an earlier result)
 var retainMu sync.Mutex
-var retainCur []func() string
 
-func keep(f func() string) string {
+// a retained result: how to re-serialise it and how to scribble over it as a
+// caller owning the result may do (undo = true reverts the scribble)
+type kept struct {
+	ser func() string
+	scr func(undo bool)
+}
+
+var retainCur []kept
+
+func keep(f func() string, scr func(undo bool)) string {
 	retainMu.Lock()
-	retainCur = append(retainCur, f)
+	retainCur = append(retainCur, kept{f, scr})
 	retainMu.Unlock()
 	return f()
 }
-func kB(b []byte) string        { return keep(func() string { return xB(b) }) }
-func kI(v *big.Int) string      { return keep(func() string { return bI(v) }) }
-func kL(l []*big.Int) string    { return keep(func() string { return lI(l) }) }
-func kP(p *babyjub.Point) string { return keep(func() string { return pt(p) }) }
+
+var scribbleK = new(big.Int).SetUint64(0x5ca1ab1e5ca1ab1e)
+
+func scrI(v *big.Int, undo bool) {
+	if v == nil {
+		return
+	}
+	if undo {
+		v.Sub(v, scribbleK)
+	} else {
+		v.Add(v, scribbleK)
+	}
+}
+func kB(b []byte) string {
+	return keep(func() string { return xB(b) }, func(bool) {
+		for i := range b {
+			b[i] ^= 0xA5
+		}
+	})
+}
+func kI(v *big.Int) string {
+	return keep(func() string { return bI(v) }, func(undo bool) { scrI(v, undo) })
+}
+func kL(l []*big.Int) string {
+	return keep(func() string { return lI(l) }, func(undo bool) {
+		for _, v := range l {
+			scrI(v, undo)
+		}
+	})
+}
+func kP(p *babyjub.Point) string {
+	return keep(func() string { return pt(p) }, func(undo bool) {
+		if p != nil {
+			scrI(p.X, undo)
+			if p.Y != p.X {
+				scrI(p.Y, undo)
+			}
+		}
+	})
+}
 
 func bI(v *big.Int) string {
 	if v == nil {
@@ -1109,7 +1153,7 @@ func main() {
 	defer w.Flush()
 	outs := make([]string, len(cases))
 	flags := make([]string, len(cases))
-	retained := make([][]func() string, len(cases))
+	retained := make([][]kept, len(cases))
 	snapsOut := make([][]string, len(cases))
 	g0 := ""
 	if *purity {
@@ -1145,7 +1189,7 @@ func main() {
 			retained[i] = retainCur
 			snapsOut[i] = make([]string, len(retainCur))
 			for j, f := range retainCur {
-				snapsOut[i][j] = f()
+				snapsOut[i][j] = f.ser()
 			}
 			for j, a := range c.args {
 				if a.snap() != snaps[j] {
@@ -1161,7 +1205,7 @@ func main() {
 	if *purity {
 		for i := range cases {
 			for j, f := range retained[i] {
-				if f() != snapsOut[i][j] {
+				if f.ser() != snapsOut[i][j] {
 					flags[i] += " RESULT-CHANGED"
 					break
 				}
@@ -1170,6 +1214,44 @@ func main() {
 		for i, c := range cases {
 			if r := run(c.op, c.args); r != outs[i] {
 				flags[i] += " REPEAT-DIFF"
+			}
+		}
+	}
+	if *purity {
+		// A caller owns what a call returned: scribbling over every returned object
+		// must not reach package state, nor change what any call returns afterwards
+		// (a result that shares storage with a cache, a pool or a constant would).
+		// A result that shares storage with an ARGUMENT of its own call (receiver
+		// methods, documented destinations) is left alone.
+		for i, c := range cases {
+			var snaps []string
+			for _, a := range c.args {
+				snaps = append(snaps, a.snap())
+			}
+			for _, k := range retained[i] {
+				k.scr(false)
+				aliasArg := false
+				for j, a := range c.args {
+					if a.snap() != snaps[j] {
+						aliasArg = true
+					}
+				}
+				if aliasArg {
+					k.scr(true)
+					continue
+				}
+				if g := globalsDigest(); g != g0 {
+					flags[i] += " SCRIBBLE-GLOBALS"
+					k.scr(true)
+					if g2 := globalsDigest(); g2 != g0 {
+						g0 = g2
+					}
+				}
+			}
+		}
+		for i, c := range cases {
+			if r := run(c.op, c.args); r != outs[i] {
+				flags[i] += " SCRIBBLE-DIFF"
 			}
 		}
 	}
